@@ -152,6 +152,13 @@ func (tx *Tx) Commit() error {
 		return nil
 	}
 
+	// refuse the whole transaction before anything is written or indexed
+	for _, entry := range tx.pendingWrites {
+		if entry.Size() > tx.db.opt.SegmentSize {
+			return ErrKeyAndValSize
+		}
+	}
+
 	lastIndex := writesLen - 1
 	countFlag := CountFlagEnabled
 	if tx.db.isMerging {
